@@ -110,10 +110,100 @@ def project(df):
     return rows
 
 
+def cause_of(how):
+    """Root-cause class of a run of the pinned algorithm (its branch log)."""
+    steps = [tuple(h) for h in how]
+    if ("suffix-tailcut", "both-headcut") in steps:
+        return "tailcut+headcut_in_one_join"
+    if any("suffix-tailcut" in st for st in steps):
+        return "tailcut"
+    return "no_tailcut"
+
+
+def canon(tab):
+    """(particle, object, order) rows -> the partition into chains with order numbers (object labels are arbitrary)."""
+    groups = {}
+    for p, o, k in tab:
+        groups.setdefault(o, []).append((k, p))
+    return sorted(tuple(sorted(g)) for g in groups.values())
+
+
+def tomo_instances(case):
+    """The abstract instance of every tomogram of a point case: particles numbered in list order, linked pairs by
+    increasing brute-force distance.  [(tomogram, [sid...], instance | None)], None when two distances tie."""
+    E, X = coords(case)
+    out = []
+    for t in sorted(set(case["tomo"])):
+        idx = [k for k in range(len(E)) if case["tomo"][k] == t]
+        links = []
+        for a, ka in enumerate(idx):
+            for b, kb in enumerate(idx):
+                if a != b:
+                    d = float(np.sqrt(((X[ka] - E[kb]) ** 2).sum()))
+                    if case["min"] < d <= case["max"]:
+                        links.append((d, a + 1, b + 1))
+        links.sort()
+        tie = any(links[k + 1][0] - links[k][0] < 1e-9 * links[k + 1][0] for k in range(len(links) - 1))
+        inst = None if tie else {"n": len(idx), "links": [[a, b] for _, a, b in links]}
+        out.append((t, [int(case["sid"][k]) for k in idx], inst))
+    return out
+
+
+def classify(ctx, pending):
+    """pending: [(clause, detail, case, kind, rows | None)].  Runs the algorithm model of Chains.tla on the abstract
+    instance of every failing case and names the cause: the table is exactly what the pinned algorithm computes
+    (and through which cut branches) or it differs from it.  Only used to build narrow failure signatures."""
+    if not pending:
+        return
+    insts, per_case = {}, []
+    for clause, detail, case, kind, rows in pending:
+        ti = tomo_instances(case)
+        per_case.append(ti)
+        for _, _, inst in ti:
+            if inst is not None:
+                insts[core.stable_hash([inst["n"], inst["links"]])] = inst
+    model = {}
+    if insts:
+        wd = ctx.sub("classify")
+        path = os.path.join(wd, "instances_%d.ndjson" % len(os.listdir(wd)))
+        with open(path, "w") as fh:
+            for inst in insts.values():
+                fh.write(json.dumps(inst) + "\n")
+        res = ctx.tlc("MC_Chains", cfg_chains("AlgoSpec", 1, 1, "file", ["CONSTRAINT EmitAlgo"]), name="classify",
+                      env={"INSTANCE_FILE": path}, workers=1)
+        for r in res.tagged.get("ALGO", []):
+            if isinstance(r, dict):
+                model[core.stable_hash([r["n"], r["links"]])] = r
+    for (clause, detail, case, kind, rows), ti in zip(pending, per_case):
+        causes, agree = [], True
+        for t, sids, inst in ti:
+            if inst is None:
+                agree = None
+                break
+            m = model.get(core.stable_hash([inst["n"], inst["links"]]))
+            if m is None:
+                raise core.MachineryError("the algorithm model returned no run for an instance of case %s" % case.get("id"))
+            causes.append(cause_of(m["how"]))
+            if rows is None:                                   # the call raised: does the model raise as well?
+                agree = agree and m["err"] != ""
+                continue
+            local = {sid: k + 1 for k, sid in enumerate(sids)}
+            real = [(local.get(r[0], -1), r[2], r[3]) for r in rows if r[1] == t]
+            agree = agree and m["err"] == "" and canon(real) == canon([tuple(x) for x in m["table"]])
+        if agree is None:
+            cause = "unclassified:equal_distances"
+        elif agree:
+            order = ["tailcut+headcut_in_one_join", "tailcut", "no_tailcut"]
+            cause = "pinned-algorithm:" + min(causes, key=order.index)
+        else:
+            cause = "differs-from-pinned-algorithm"
+        ctx.fail(clause, detail + "; cause: " + cause, case, {"op": OP, "kind": kind, "cause": cause})
+
+
 def run_cases(ctx, cases, corrupt=None):
     """Run trace_chains on every case, write the traces, let ChainsTrace.tla decide.  Returns per kept case the
     projected table (for the informational model-conformance count)."""
-    traces, kept, tables = [], [], []
+    traces, kept, tables, pending = [], [], [], []
     for case in cases:
         links = relation(case)
         if links is None:
@@ -122,7 +212,7 @@ def run_cases(ctx, cases, corrupt=None):
         res, err = core.call_guarded(call_trace, case)
         ctx.ran(case, nontrivial=len(links) > 0)
         if err is not None:
-            ctx.fail("call_raises", err, case, {"op": OP, "kind": "-"})
+            pending.append(("call_raises", err, case, "-", None))
             continue
         rows = project(res.df)
         if corrupt == "field" and not traces and len(rows) > 1:
@@ -135,6 +225,7 @@ def run_cases(ctx, cases, corrupt=None):
         kept.append(case)
         tables.append(rows)
     if not traces:
+        classify(ctx, pending)
         return kept, tables
     wd = ctx.sub("trace")
     path = os.path.join(wd, "traces_%d.ndjson" % len(os.listdir(wd)))
@@ -153,8 +244,9 @@ def run_cases(ctx, cases, corrupt=None):
             continue
         if v["clause"] == "TRACE_INCONSISTENT":
             raise core.MachineryError("driver logged an inconsistent trace for case %s" % json.dumps(case)[:500])
-        ctx.fail(v["clause"], "table returned by trace_chains rejected by ChainsTrace (ValidTrace clause %s, %s)" % (
-            v["clause"], v["kind"]), case, {"op": OP, "kind": v["kind"]})
+        pending.append((v["clause"], "table returned by trace_chains rejected by ChainsTrace (ValidTrace clause %s, %s)" % (
+            v["clause"], v["kind"]), case, v["kind"], tables[i]))
+    classify(ctx, pending)
     return kept, tables
 
 
@@ -293,27 +385,29 @@ def run(ctx):
                           name="algo_%d_%d" % (n, k), workers=workers)
             bad += res.tagged.get("ALGO", [])
             ctx.exhaustive["L1_algorithm_%d_particles_%d_links" % (n, k)] = True
-        # the neighbourhood of the Appendix-C configuration: every link subset / order over seven candidate pairs
-        res = ctx.tlc("MC_Chains", cfg_chains("AlgoSpec", 6, ctx.pick(5, 7), "skeleton", ["CONSTRAINT EmitAlgo"]),
-                      name="algo_skeleton", workers=1)
-        recs = dedupe(res.tagged.get("ALGO", []))
-        bad += [r for r in recs if r["clause"] != "none"]
-        sample += [r for r in recs if r["clause"] == "none" and r["links"]]
-        ctx.exhaustive["L1_algorithm_skeleton"] = True
+        # the neighbourhoods of the two six-particle counter-examples (found by TLC's simulation of this model; the first
+        # is the Appendix-C mechanism): every link subset / distance order over their candidate pairs
+        for fam, k in (("skeleton", ctx.pick(5, 7)), ("skeleton2", 6)):
+            res = ctx.tlc("MC_Chains", cfg_chains("AlgoSpec", 6, k, fam, ["CONSTRAINT EmitAlgo"]),
+                          name="algo_" + fam, workers=1)
+            recs = dedupe(res.tagged.get("ALGO", []))
+            bad += [r for r in recs if r["clause"] != "none"]
+            sample += [r for r in recs if r["clause"] == "none" and r["links"]]
+            ctx.exhaustive["L1_algorithm_" + fam] = True
         if not ctx.quick:
-            # random simulation of the model on six particles with six links
-            nsim = int(os.environ.get("VERIF_C19_SIM", "600000"))
-            res = ctx.tlc("MC_Chains", cfg_chains("SimSpec", 6, 6, "none", ["CONSTRAINT EmitAlgoBad"]),
-                          name="algo_sim", workers=workers, simulate=nsim, depth=16, seed=ctx.seed + 1)
-            bad += res.tagged.get("ALGO", [])
+            # random simulation of the model: six particles with six links, seven with seven
+            nsim = int(os.environ.get("VERIF_C19_SIM", "60000"))
+            for n in (6, 7):
+                res = ctx.tlc("MC_Chains", cfg_chains("SimSpec", n, n, "none", ["CONSTRAINT EmitAlgoBad"]),
+                              name="algo_sim%d" % n, workers=workers, simulate=nsim, depth=2 * n + 4, seed=ctx.seed + n)
+                bad += res.tagged.get("ALGO", [])
         bad = dedupe(bad)
         ctx.extra["model_counterexamples"] = len(bad)
-        ctx.extra["model_counterexample_classes"] = sorted({"%s/%s" % (
-            r["clause"], "reorderable" if r["reorderable"] else "other") for r in bad})
+        ctx.extra["model_counterexample_classes"] = sorted({"%s/%s" % (r["clause"], cause_of(r["how"])) for r in bad})
     if want("l2") and (bad or sample):
         rng = random.Random(ctx.seed * 7919 + 19)
-        chosen = sorted(sample, key=lambda r: core.stable_hash([ctx.seed, r["links"]]))[:ctx.pick(60, 1500)]
-        todo = bad[:ctx.pick(40, 400)] + chosen
+        chosen = sorted(sample, key=lambda r: core.stable_hash([ctx.seed, r["links"]]))[:ctx.pick(40, 500)]
+        todo = bad[:ctx.pick(25, 150)] + chosen
         cases, recs = [], []
         for i, r in enumerate(todo):
             c = instance_case(ctx, r, rng, 100000 + i)
@@ -325,18 +419,12 @@ def run(ctx):
         by_id = {c["id"]: r for c, r in zip(cases, recs)}
         for c, rows in zip(kept, tables):
             model = sorted((p, o, k) for p, o, k in by_id[c["id"]]["table"])
-            # compare partitions and order numbers (object labels are arbitrary)
-            def canon(tab):
-                groups = {}
-                for p, o, k in tab:
-                    groups.setdefault(o, []).append((k, p))
-                return sorted(tuple(sorted(g)) for g in groups.values())
             real = canon([(r[0], r[2], r[3]) for r in rows])
             agree += int(real == canon(model))
         ctx.extra["model_instances_replayed"] = len(kept)
         ctx.extra["model_agreement"] = "%d of %d real tables equal the model's table" % (agree, len(kept))
     if want("l3"):
-        total = ctx.pick(150, 2500)
+        total = ctx.pick(100, 2500)
         batch = 250
         done = 0
         while done < total:
